@@ -1263,7 +1263,7 @@ def hwCore (w : W) (c : Cli) : W × Cli :=
   let cap := capOf w c.fd
   if cap < 0 then ({ w with sys := w.sys ++ [.write c.fd [] true false] }, { c with quit := true })
   else if c.blocking then
-    ({ w with sys := w.sys ++ [.write c.fd c.toBuf false (cap < c.toBuf.length)] }, { c with toBuf := [] })
+    (setCap { w with sys := w.sys ++ [.write c.fd c.toBuf false (cap < c.toBuf.length)] } c.fd (if cap < c.toBuf.length then 0 else cap - c.toBuf.length), { c with toBuf := [] })
   else if cap == 0 then
     ({ w with sys := w.sys ++ [.write c.fd [] false false] }, { c with quit := true })
   else
@@ -1281,7 +1281,7 @@ theorem hwCore_out (w : W) (c : Cli) :
     split
     · exact ⟨by simp [outOf, written_append, written_write], rfl, rfl, rfl⟩
     · split
-      · exact ⟨by simp [outOf, written_append, written_write], rfl, rfl, rfl⟩
+      · exact ⟨by simp [outOf, setCap, written_append, written_write], rfl, rfl, rfl⟩
       · split
         · exact ⟨by simp [outOf, written_append, written_write], rfl, rfl, rfl⟩
         · exact ⟨by simp [outOf, setCap, written_append, written_write], rfl, rfl, rfl⟩
